@@ -57,10 +57,10 @@ def handle : List String → Option String
   | ["c02.f32", "fmt4", a, real] => do
     let a ← parseBits a
     pure (expect (F32.fmt4 a) real)
-  | ["c02.cast", kind, size, real] => do
+  | ["c02.cast", kind, size, native, real] => do
     let size ← size.toNat?
     let k ← kind.toList.head?
-    pure (expect (optNatOf (castDtype k size)) real)
+    pure (expect (optNatOf (castDtype k size (← parseBool native))) real)
   -- metric laws on real bit patterns of a triple (a,b,c): dab dba dbc dac daa
   | ["c15.triple", a, b, c, dab, dba, dbc, dac, daa] => do
     let a ← parseNats a
